@@ -946,29 +946,21 @@ func (c *Ctx) sizeGates(ia *interpAnchors) {
 			n++
 			src := stripConv(size)
 			is := func(v ssa.Value) bool { return stripConv(v) == src }
-			conds := domConds(ins.Block())
-			ub, okU := upperBoundConst(conds, is)
-			lb, okL := lowerBoundConst(conds, is)
+			// the comparisons known where the allocation happens: tests written in the operator, and tests a
+			// validating helper performs whose result the operator tests (ext_w3.go)
+			facts := c.cmpFactsAt(ins.Block(), 2)
+			ub, okU := upperBoundCmps(facts, is)
+			lb, okL := lowerBoundCmps(facts, is)
 			c.check(okU && okL && lb >= 0 && ub <= 1<<24, "L6-SIZE", c.fname(f), op+": allocation size bounded", ins.Pos(), fmt.Sprintf("%d <= size <= %d", lb, ub),
 				fmt.Sprintf("operator %s allocates with a size that is not bounded by constants on both sides (lower %v/%d, upper %v/%d)", op, okL, lb, okU, ub))
 			// the upper-bound failure reports limitcheck
-			for _, cd := range conds {
-				m, ok := asCmp(cd)
-				if !ok || !is(m.x) {
+			for _, ft := range facts {
+				if _, up, lo, ok := boundOfCmp(ft.m, is); !ok || !up || lo {
 					continue
 				}
-				if _, isC := constInt(origin(m.y)); !isC {
-					continue
-				}
-				if m.op == token.LEQ || m.op == token.LSS {
-					// the other edge of this If
-					other := cd.blk.Succs[0]
-					if cd.truth {
-						other = cd.blk.Succs[1]
-					}
-					name := c.blockReturnsErr(other)
-					c.check(name == "limitcheck", "L6-SIZE", c.fname(f), op+": oversized request → limitcheck", other.Instrs[0].Pos(), "limitcheck", "an oversized "+op+" request is reported as `"+name+"`, not limitcheck")
-				}
+				// the other edge of this If
+				other, name := c.failureOf(ft)
+				c.check(name == "limitcheck", "L6-SIZE", c.fname(f), op+": oversized request → limitcheck", other.Instrs[0].Pos(), "limitcheck", "an oversized "+op+" request is reported as `"+name+"`, not limitcheck")
 			}
 		})
 		c.check(n > 0, "L6-SIZE", c.fname(f), op+": allocation found", f.Pos(), "", "operator "+op+" no longer allocates with a run-time size; rule L6 has lost its anchor")
